@@ -556,10 +556,79 @@ pub fn main(args: &crate::Args) {
             }
         }
     }
+    // ---- VarDCT family: two YCbCr (or RGB) VarDCT frames, the second blended onto the slot the first was saved to.
+    // Oracle without a colour model: each frame rendered on its own (single-frame streams of the same decoder) and the
+    // blend rule applied to those two pictures.
+    {
+        let mut vjobs: Vec<(u32, u32, bool, (usize, usize), bool)> = vec![];
+        // (Mul without extra channels is an oracle-uncertain header form, DESIGN.md section 8)
+        for mode in [BLEND_ADD] {
+            for slot in 0..4u32 {
+                for ycbcr in [true, false] {
+                    for size in [(16usize, 8usize), (40, 24)] {
+                        for filters in [false, true] {
+                            vjobs.push((mode, slot, ycbcr, size, filters));
+                        }
+                    }
+                }
+            }
+        }
+        let vres = par_map(&vjobs, n_threads(), |_, &(mode, slot, ycbcr, size, filters)| -> Result<(), (String, String, Vec<u8>)> {
+            let mk = |seed: u64, pattern: u32| {
+                let mut t = Tape::default();
+                let mut c = crate::c17::cfg_from(&mut t);
+                c.size = size;
+                c.pattern = pattern;
+                crate::c17::spec_of(&c, seed)
+            };
+            let (a, b) = (mk(31, 0), mk(32, 2));
+            let o = |not_last: bool, save: u32, mode: u32, src: u32| jxlw::jpeg::StreamOpts { no_ycbcr: !ycbcr, filters, not_last, save_as_reference: save, blend_mode: mode, blend_source: src, ..Default::default() };
+            let render = |bytes: &[u8]| -> Result<Vec<f32>, String> {
+                let img = open(bytes, &DecOpts::default())?;
+                let fb = crate::util::guard(|| img.render_frame(0).map(|r| r.image_all_channels())).map_err(|p| format!("panic {p}"))?.map_err(|e| format!("{e}"))?;
+                Ok(fb.buf().to_vec())
+            };
+            let single_a = a.write_codestream_with(&o(false, 0, BLEND_REPLACE, 0));
+            let single_b = b.write_codestream_with(&o(false, 0, BLEND_REPLACE, 0));
+            let (_, hdr, fa) = a.stream_parts(&o(true, slot, BLEND_REPLACE, 0));
+            let (_, _, fbytes) = b.stream_parts(&o(false, 0, mode, slot));
+            let mut both = hdr;
+            both.extend_from_slice(&fa);
+            both.extend_from_slice(&fbytes);
+            let key = format!("vardct-blend:mode{mode}");
+            let (ra, rb, rc) = (render(&single_a).map_err(|e| (key.clone(), format!("frame A alone: {e}"), single_a.clone()))?, render(&single_b).map_err(|e| (key.clone(), format!("frame B alone: {e}"), single_b.clone()))?, render(&both).map_err(|e| (key.clone(), format!("two-frame stream: {e}"), both.clone()))?);
+            if ra.len() != rc.len() || rb.len() != rc.len() {
+                return Err((key, "buffer sizes differ".into(), both));
+            }
+            for i in 0..rc.len() {
+                let (x, y) = (ra[i] as f64, rb[i] as f64);
+                let want = if mode == BLEND_ADD { x + y } else { x * y };
+                let tol = 2e-6 * (x.abs() + y.abs() + want.abs()) + 1e-6;
+                if !((rc[i] as f64 - want).abs() <= tol) {
+                    return Err((key, format!("sample {i}: composite {} but frame A alone gives {x}, frame B alone {y} (slot {slot}, ycbcr {ycbcr}, size {:?}, filters {filters})", rc[i], size), both));
+                }
+            }
+            Ok(())
+        });
+        for (j, r) in vjobs.iter().zip(vres) {
+            rep.eval();
+            match r {
+                Ok(()) => {
+                    rep.outcome("vardct-blend-ok");
+                    rep.nontrivial(fnv(format!("vardct-blend{:?}", j).as_bytes()));
+                }
+                Err((k, w, bytes)) => {
+                    rep.outcome("vardct-blend-mismatch");
+                    rep.violation(&k, &w, &json!({"family": "vardct-blend", "mode": j.0, "slot": j.1, "ycbcr": j.2, "stream_hex": hex(&bytes[..bytes.len().min(6000)])}));
+                }
+            }
+        }
+        rep.extra.insert("vardct_blend_cases".into(), json!(vjobs.len()));
+    }
     rep.extra.insert("patch_deviation_cases".into(), json!(n_pdev));
     rep.extra.insert("patch_full_product_cases".into(), json!(ptapes.len() - n_pdev));
     rep.extra.insert("patch_not_applicable".into(), json!(pskipped));
-    rep.rule = format!("canvas 5x4, lossless non-XYB Modular frames, RGB + alpha (+ a second extra channel); configuration = image dims (premultiplied/straight alpha, alpha depth 8/16 vs colour depth 8/12, second extra channel) + up to {max_frames} frames each with (type Regular/ReferenceOnly/SkipProgressive, duration 0/1, save slot 0-3, 5 blend modes, source slot 0-3, clamp, 9 crop kinds incl. every edge / wholly outside / larger than canvas, 3 extra-channel blend variants, 3 sample patterns) + keyframe request order (forward, reverse, twice): ALL configurations within {bound} deviations of the default, plus the FULL PRODUCT for two frames over (mode0, save0, duration0, crop0) x (mode1, source1, crop1) x premultiplied; oracle: jxlw::model::composite (per-channel blend rules applied in bitstream order on reference slots) within 1e-5. PATCHES: on an 8x6 canvas a reference frame (ReferenceOnly 5x4, ReferenceOnly canvas-sized, or zero-duration Regular; slot 0-3) followed by a frame whose patch dictionary (written by jxlw::patches, prefix or ANS coded) copies 1-2 source rectangles (5 kinds incl. edge-touching and whole reference) to 1-2 targets (origin, inner, far corner; second target by negative/positive delta) with colour mode 0-7, alpha-channel mode (same/None/Replace/Add), second-extra-channel mode (same/None/Mul), clamp, one or two alpha channels (premultiplied / straight, 8/16 bit) and the alpha channel chosen, on a full or cropped frame (3 crops incl. partly outside the canvas) that is then blended (Replace/Blend/Add): ALL configurations within {bound} deviations plus the FULL PRODUCT premultiplied x reference kind x 8 colour modes x 4 alpha modes x 3 EC modes x clamp x alpha channels x frame blend; oracle jxlw::patches::apply_patches then composite. Non-trivial = decodes and matches with >= 1 keyframe; distinct by tape.");
+    rep.rule = format!("canvas 5x4, lossless non-XYB Modular frames, RGB + alpha (+ a second extra channel); configuration = image dims (premultiplied/straight alpha, alpha depth 8/16 vs colour depth 8/12, second extra channel) + up to {max_frames} frames each with (type Regular/ReferenceOnly/SkipProgressive, duration 0/1, save slot 0-3, 5 blend modes, source slot 0-3, clamp, 9 crop kinds incl. every edge / wholly outside / larger than canvas, 3 extra-channel blend variants, 3 sample patterns) + keyframe request order (forward, reverse, twice): ALL configurations within {bound} deviations of the default, plus the FULL PRODUCT for two frames over (mode0, save0, duration0, crop0) x (mode1, source1, crop1) x premultiplied; oracle: jxlw::model::composite (per-channel blend rules applied in bitstream order on reference slots) within 1e-5. PATCHES: on an 8x6 canvas a reference frame (ReferenceOnly 5x4, ReferenceOnly canvas-sized, or zero-duration Regular; slot 0-3) followed by a frame whose patch dictionary (written by jxlw::patches, prefix or ANS coded) copies 1-2 source rectangles (5 kinds incl. edge-touching and whole reference) to 1-2 targets (origin, inner, far corner; second target by negative/positive delta) with colour mode 0-7, alpha-channel mode (same/None/Replace/Add), second-extra-channel mode (same/None/Mul), clamp, one or two alpha channels (premultiplied / straight, 8/16 bit) and the alpha channel chosen, on a full or cropped frame (3 crops incl. partly outside the canvas) that is then blended (Replace/Blend/Add): ALL configurations within {bound} deviations plus the FULL PRODUCT premultiplied x reference kind x 8 colour modes x 4 alpha modes x 3 EC modes x clamp x alpha channels x frame blend; oracle jxlw::patches::apply_patches then composite. VARDCT: two YCbCr / RGB VarDCT frames (2 sizes, with and without Gabor + EPF), the second blended (Add) onto slot 0-3 holding the first: the composite must equal the blend rule applied to the two frames rendered on their own. Non-trivial = decodes and matches with >= 1 keyframe; distinct by tape.");
     for i in [n_dev / 2, tapes.len() - 1] {
         let mut t = Tape::from_answers(&tapes[i]);
         let c = cfg_from(&mut t, max_frames);
